@@ -156,7 +156,7 @@ CLAIMED = {
        "matcher and checked by the oracle only; the patch clause executes vendor logics.",
   design="§5 C17", technique="Lean 4 proof (structural induction over rule trees) + differential correspondence"),
  "C02": dict(
-  text="PARTIAL proof. Lean theorems over the model of apply_acl_diff / make_diff with ACL / _diff_and_patch with an ACL: (a, provenance "
+  text="Lean theorems over the model of apply_acl_diff / make_diff with ACL / _diff_and_patch with an ACL: (a, provenance "
        "form, end to end: C02_device_patch_provenance) every item of the patch tree, at every depth, stems from an entry of the "
        "ACL-filtered diff - it is the entry's row, the removal command of a REMOVED/MOVED entry or the commit of a %force_commit "
        "rule, nothing else can appear in a patch built by the common logics - and every such entry has a row the ACL matches at "
@@ -164,8 +164,9 @@ CLAIMED = {
        "REMOVED entry whose selected match has only cant_delete generators is relabelled, and no common logic emits a removal "
        "without a REMOVED/MOVED bucket; (b) end to end at the top level (C02_uncovered_line_untouched_flat/_device): if no line of "
        "old or new that the ACL covers addresses a slot (as written or through its negated form), executing the patch "
-       "_diff_and_patch builds leaves the line holding that slot as it was, whatever the device holds; level-wise at every "
-       "depth: commands on other (rule,key) slots leave a line, its subtree and position alone over whole command lists; "
+       "_diff_and_patch builds leaves the line holding that slot as it was, whatever the device holds; at every depth "
+       "(C02_uncovered_line_untouched_nested, C02_uncovered_subtree_untouched): below a path of surviving blocks a line no diff "
+       "entry addresses keeps its text, subtree and position when the patch tree is executed; "
        "no generator ACL rule / an empty requested filter => empty diff and empty patch (C02_no_generator_acl_no_patch). The text reading of (a) is false of the code (kernel-checked witness, "
        "finding F02a); (b) needs the hypothesis that an uncovered row shares no slot with a command (finding F02b); %rewrite groups "
        "are re-sent as a whole (findings F02c, F02d). Tie: _diff_and_patch with acl_rules vs the model on 1.9k (quick) generated "
